@@ -251,27 +251,43 @@ Section Bulk.
     intros H. inversion H; subst. cbn [nr nc dat]. apply andb_true_iff in E. destruct E as [E E3]. apply andb_true_iff in E. destruct E as [E1 E2].
     apply Nat.ltb_lt in E1, E2. apply Nat.eqb_eq in E3. repeat split; auto.
   Qed.
+  Lemma matrix_new0_shape (d : list T) r c m :
+    matrix_new0 d r c = Some m ->
+    nr m = r /\ nc m = c /\ dat m = d /\ length d = (r * c)%nat /\ ((0 < r /\ 0 < c) \/ (r = 0 /\ c = 0))%nat.
+  Proof.
+    unfold matrix_new0. destruct ((r =? 0)%nat && (c =? 0)%nat && (length d =? 0)%nat) eqn:E.
+    - apply andb_true_iff in E. destruct E as [E E3]. apply andb_true_iff in E. destruct E as [E1 E2].
+      apply Nat.eqb_eq in E1, E2, E3. subst r c. intros H. inversion H; subst. cbn [nr nc dat]. repeat split; auto.
+    - intros H. apply matrix_new_shape in H. destruct H as (? & ? & ? & ? & ? & ?). repeat split; auto.
+  Qed.
   Lemma sample_matrix_shape fuel d r c s m s' :
     sample_matrix O src fuel d r c s = Ok (m, s') -> nr m = r /\ nc m = c /\ length (dat m) = (r * c)%nat.
   Proof.
     unfold sample_matrix. destruct (sample_n O src fuel d (r * c) s) as [[l s1]| |] eqn:E; cbn [res_bind]; try discriminate.
-    destruct (matrix_new l r c) as [m1|] eqn:Em; [|discriminate]. intros H. inversion H; subst.
-    apply matrix_new_shape in Em. destruct Em as (? & ? & Hd & ? & _). rewrite Hd. auto.
+    destruct (matrix_new0 l r c) as [m1|] eqn:Em; [|discriminate]. intros H. inversion H; subst.
+    apply matrix_new0_shape in Em. destruct Em as (? & ? & Hd & ? & _). rewrite Hd. auto.
   Qed.
   (** acceptance: positive dimensions and a successful bulk draw give a matrix *)
   Lemma sample_matrix_accepts fuel d r c s l s' :
     (0 < r)%nat -> (0 < c)%nat -> sample_n O src fuel d (r * c) s = Ok (l, s') ->
     sample_matrix O src fuel d r c s = Ok ({| nr := r; nc := c; dat := l |}, s').
   Proof.
-    intros Hr Hc H. unfold sample_matrix. rewrite H. cbn [res_bind]. unfold matrix_new.
+    intros Hr Hc H. unfold sample_matrix. rewrite H. cbn [res_bind]. unfold matrix_new0, matrix_new.
     apply sample_n_length in H. rewrite H, Nat.eqb_refl.
+    destruct (Nat.eqb_spec r 0); [lia|]. cbn [andb].
     destruct (Nat.ltb_spec 0 r); [|lia]. destruct (Nat.ltb_spec 0 c); [|lia]. reflexivity.
   Qed.
+  (** a zero dimension is refused -- except 0 x 0 (restated: on the original code [Matrix::new] refused every zero
+      dimension, [sample_matrix(0, 0)] included, and this lemma said so) *)
   Lemma sample_matrix_rejects_empty fuel d r c s :
-    (r = 0 \/ c = 0)%nat -> forall m s', sample_matrix O src fuel d r c s <> Ok (m, s').
+    (r = 0 \/ c = 0)%nat -> ~ (r = 0 /\ c = 0)%nat -> forall m s', sample_matrix O src fuel d r c s <> Ok (m, s').
   Proof.
-    intros Hz m s' H. apply sample_matrix_shape in H as Hs. unfold sample_matrix in H.
+    intros Hz Hn m s' H. unfold sample_matrix in H.
     destruct (sample_n O src fuel d (r * c) s) as [[l s1]| |]; cbn [res_bind] in H; try discriminate.
-    destruct (matrix_new l r c) as [m1|] eqn:Em; [|discriminate]. apply matrix_new_shape in Em. lia.
+    destruct (matrix_new0 l r c) as [m1|] eqn:Em; [|discriminate]. apply matrix_new0_shape in Em. lia.
   Qed.
+  (** [sample_matrix(0, 0)] draws nothing and returns the empty matrix *)
+  Lemma sample_matrix_empty fuel d s :
+    sample_matrix O src fuel d 0 0 s = Ok ({| nr := 0; nc := 0; dat := [] |}, s).
+  Proof. reflexivity. Qed.
 End Bulk.
